@@ -83,6 +83,8 @@ type HS struct {
 //	conf     Save(nil, nil, {ConfState only}) as raftconn does after applying a conf change (Voters = Voters)
 //	snap     CreateSnapshot(Index, {Voters}, "snapshot")
 //	del      DeleteBefore(Index)
+//	install  Save(hs, nil, {Index, Term, Voters, "snapshot"}) with Index > last: what raftconn does when a follower that
+//	         fell behind receives the leader's snapshot (replay only; known finding C17-snapshot-install-first-index)
 //	reopen   Close + Init on the same directory
 //	term     Term(Index)
 //	ents     Entries(Lo, Hi, Max)
@@ -148,6 +150,7 @@ type machine struct {
 	commit     uint64
 	storeFirst uint64 // last first index the store reported (monotone)
 	reopens    int
+	installed  uint64 // index of an installed (received) snapshot; full[] holds placeholders up to it
 }
 
 func newMachine(rwType int) (*machine, error) {
@@ -255,6 +258,8 @@ func (m *machine) apply(o Op) error {
 		return m.deleteBefore(o)
 	case "reopen":
 		return m.reopen()
+	case "install":
+		return m.install(o)
 	case "term":
 		return m.checkTerm(o.Index)
 	case "ents":
@@ -350,6 +355,31 @@ func (m *machine) deleteBefore(o Op) error {
 	return nil
 }
 
+// install: the reference discards its log (ApplySnapshot): first = Index+1, last = Index, Term(Index) = snapshot term.
+func (m *machine) install(o Op) error {
+	if o.Index <= m.last() || o.HS == nil || o.HS.Commit != o.Index {
+		return fmt.Errorf("harness: install needs index > last and a hard state committing it")
+	}
+	sn := raftpb.Snapshot{Data: []byte("snapshot"), Metadata: raftpb.SnapshotMetadata{Index: o.Index, Term: o.Term, ConfState: raftpb.ConfState{Voters: o.Voters}}}
+	hs := raftpb.HardState{Term: o.HS.Term, Vote: o.HS.Vote, Commit: o.HS.Commit}
+	if err := m.store.Save(&hs, nil, &sn); err != nil {
+		return vio("Save(hard state, no entries, snapshot at %d): %v", o.Index, err)
+	}
+	if err := m.ms.ApplySnapshot(sn); err != nil {
+		return fmt.Errorf("harness: reference ApplySnapshot: %v", err)
+	}
+	_ = m.ms.SetHardState(hs)
+	for m.last() < o.Index {
+		m.full = append(m.full, raftpb.Entry{}) // never saved
+	}
+	m.full[o.Index-1] = raftpb.Entry{Index: o.Index, Term: o.Term}
+	m.hs, m.commit, m.snap, m.installed = hs, o.Index, sn, o.Index
+	if tm, err := m.store.Term(o.Index); err != nil || tm != o.Term {
+		return vio("Term(%d) = %d, %v after installing the snapshot {index %d term %d}", o.Index, tm, err, o.Index, o.Term)
+	}
+	return nil
+}
+
 func (m *machine) reopen() error {
 	if err := m.store.Close(); err != nil {
 		return vio("Close: %v", err)
@@ -380,6 +410,20 @@ func (m *machine) checkBasic() error {
 	// file-granular prefix deletion: the store may keep more than asked for, never less, and never un-delete
 	if first < m.storeFirst || first > m.msFirst() {
 		return vio("FirstIndex = %d, want within [%d (previous answer), %d (reference after the requested deletions)]", first, m.storeFirst, m.msFirst())
+	}
+	if m.installed > 0 && first <= m.installed {
+		// the entries between the old end of the log and the snapshot were never saved: a first index at or below the
+		// snapshot index promises entries the store cannot have
+		ents, eerr := m.store.Entries(first, m.installed+1, math.MaxUint64)
+		gap := ""
+		for k := 1; k < len(ents); k++ {
+			if ents[k].Index != ents[k-1].Index+1 {
+				gap = fmt.Sprintf("; the answer jumps from index %d to %d", ents[k-1].Index, ents[k].Index)
+				break
+			}
+		}
+		return vio("FirstIndex = %d after a snapshot at %d was installed over a log that ended below it (reference: %d); Entries(%d,%d,max) = %d entries, err %v%s",
+			first, m.installed, m.msFirst(), first, m.installed+1, len(ents), eerr, gap)
 	}
 	m.storeFirst = first
 	last, err := m.store.LastIndex()
